@@ -10,7 +10,7 @@ CLAIMED = {
    note="Drives the debug build of abasic-cli with piped stdin (rustyline's non-terminal path), private HOME, NO_COLOR=1; programs without RND for the process-level part (the CLI seeds from the clock).",
    design="4/C15"),
  "C19": dict(
-   technique="stateful model-based testing: generated page-event histories through a Rust transliteration of the page script driving the real JsInterpreter natively, differential against a shadow core interpreter after every adapter call",
+   technique="stateful model-based testing: generated page-event histories through a Rust transliteration of the page script driving the real JsInterpreter natively, differential against a shadow core interpreter after every adapter call; libFuzzer target (page events decoded from bytes) in the thorough tier",
    text="Generated histories of load / submit / break / tick events are handled exactly as main.ts handles them (incl. the setTimeout chain with stale ticks, the recursion on Errored, the disabled-input end state); after every adapter call the state, the drained output records (type, text) and the error text must equal what the core interpreter produces for the same calls, no adapter assertion or the NewInterpreterRequested panic may fire, and after NEW a probe script must not distinguish the adapter from a fresh one.",
    note="The transliteration of main.ts is a trusted model (TypeScript cannot be built here; the file's SHA-256 is recorded in the evidence); traps are native panics of the same Rust code.",
    design="4/C19"),
@@ -50,7 +50,7 @@ CLAIMED = {
    note="The first DATA item of the edited program is computed from the generated AST.",
    design="4/C11"),
  "C16": dict(
-   technique="invariant checking over generated sessions (snapshot hook after every host call) plus an exhaustive list of cap-boundary scripts with exact expectations",
+   technique="invariant checking over generated sessions (snapshot hook after every host call) plus an exhaustive list of cap-boundary scripts with exact expectations; libFuzzer target (sessions decoded from bytes, invariants in-target) in the thorough tier",
    text="After every host call of generated sessions (ill-typed writes through every path, C01's structured and hostile sessions) the snapshot must show <= 32 frames, <= 32 open loops over distinct variables, arrays whose cell count equals the product of their dimensions and is <= 10000, and name-suffix typing of every scalar, array and parameter binding. Cap-boundary scripts (GOSUB depth 31/32/33, 32/33 nested FORs, re-entered and abandoned loops thousands of times, DIM products 9999/10000/10001, 4+-subscript implicit arrays) must report OUT OF MEMORY exactly beyond the cap and leave the interpreter usable.",
    note="Observation through the read-only snapshot hook.",
    design="4/C16"),
@@ -66,27 +66,27 @@ CLAIMED = {
    design="4/C01"),
  "C05": dict(
    technique="property-based fuzzing of file texts (grammar-generated programs + document-level mutations, mutated repo programs, atom soup, raw Unicode) against a validity predicate over diagnostics and token ranges; libFuzzer target in the thorough tier",
-   text="For generated documents SourceFileAnalyzer::analyze must return, yield one token list per file line, and every diagnostic must map to Some((line, range)) on the line it names, inside that line and on character boundaries; per-line token ranges must be ordered, disjoint and in bounds. Duplicated / emptied / untokenizable redefinitions, CRLF, multi-byte characters outside strings and u64-boundary line numbers are forced by the generator (class histogram in the evidence). Deeply nested and very long constructs are analyzed in child processes on a 1 MiB stack and judged by exit status (family deep-nesting).",
+   text="For generated documents SourceFileAnalyzer::analyze must return, yield one token list per file line, and every diagnostic must map to Some((line, range)) on the line it names, inside that line and on character boundaries; per-line token ranges must be ordered, disjoint and in bounds. Duplicated / emptied / untokenizable redefinitions, CRLF, line prefixes (byte order mark, indentation, no-break / zero-width spaces), multi-byte characters outside strings and u64-boundary line numbers are forced by the generator (class histogram in the evidence). Deeply nested and very long constructs are analyzed in child processes on a 1 MiB stack and judged by exit status (family deep-nesting).",
    note="Trusts the 80-line predicate check_document in c05.rs.",
    design="4/C05"),
  "C04": dict(
-   technique="stateful property testing: generated edit histories (proptest vec of ops + interpreter of ops) against a BTreeMap reference model; differential against a fresh interpreter",
+   technique="stateful property testing: generated edit histories (proptest vec of ops + interpreter of ops) against a BTreeMap reference model; differential against a fresh interpreter; libFuzzer target (histories decoded from bytes, map oracle in-target) in the thorough tier",
    text="Generated histories of add / replace / delete / failed-edit / LIST / RUN operations over colliding and extreme line numbers (0, leading zeros, 2^63, 2^64-1, 20+-digit pseudo numbers). With serial PRINT payloads the oracle is a BTreeMap and is independent of the tokenizer; with arbitrary statements the used interpreter must LIST and RUN exactly like a fresh one holding the surviving lines. Sampling of the history space; collisions are forced by a small number pool.",
    note="Trusts the 20-line map model in c04.rs; RUN comparisons run under a 2000-turn budget with both sides seeded alike.",
    design="4/C04"),
  "C12": dict(
-   technique="metamorphic property testing: lines built from construction-tagged segments, exhaustive and random whitespace/case perturbations, token sequences compared through the tokenizer hook and through LIST",
-   text="Base lines are assembled from free / protected / DATA-item segments tagged by the generator (never by the tokenizer). Every base is perturbed: all blanks removed, blank/tab/three blanks in every gap, every single gap, all 2^k gap subsets for k <= 8, all-lower/all-upper, every single letter flip, random flips; each variant must tokenize to the identical token sequence (or identical error kind) and LIST identically. Exhaustive per base line inside those bounds; base lines are sampled.",
+   technique="metamorphic property testing: lines built from construction-tagged segments, exhaustive and random whitespace/case perturbations, token sequences compared through the tokenizer hook and through LIST; libFuzzer target (tagged segments decoded from bytes) in the thorough tier",
+   text="Base lines are assembled from free / protected / DATA-item segments tagged by the generator (never by the tokenizer); free text includes identifiers over every letter and tight digit-letter-sign-digit runs (2E3, 5e-3). Every base is perturbed: all blanks removed, blank/tab/three blanks in every gap, every single gap, all 2^k gap subsets for k <= 8, all-lower/all-upper, every single letter flip, random flips; each variant must tokenize to the identical token sequence (or identical error kind) and LIST identically. Exhaustive per base line inside those bounds; base lines are sampled.",
    note="Trusts the segment construction (protected map) and the exclusion of lines whose free text accidentally spells REM/DATA; the hook tokenize_with_ranges wraps the real Tokenizer.",
    design="4/C12"),
  "C13": dict(
-   technique="exhaustive enumeration of atom strings + random/raw text (proptest) against a validity predicate with a re-tokenization round trip per token",
-   text="All strings of up to 4 (quick) / 5 (thorough) atoms from a 40-atom alphabet covering every token class, blanks, tabs, multi-byte and illegal characters are enumerated; random atom strings to length 40, every line of the repo's programs and test sources, and raw Unicode text are added. For each line the reported ranges must be in bounds, on char boundaries, ordered, disjoint, separated only by blanks, blank-free at both ends (REM/DATA to their text end), and re-tokenizing each range's text must give exactly that token; for failing lines the error start must be in the line and the prefix must tokenize to the tokens reported before the error.",
+   technique="exhaustive enumeration of atom strings + random/raw text (proptest) against a validity predicate with a re-tokenization round trip per token; libFuzzer target in the thorough tier",
+   text="All strings of up to 4 (quick) / 5 (thorough) atoms from a 40-atom alphabet covering every token class, blanks, tabs, multi-byte and illegal characters are enumerated; random atom strings to length 40, token-dense lines of tagged segments (identifiers over every letter, digit-letter-sign-digit runs), every line of the repo's programs and test sources, and raw Unicode text are added. For each line the reported ranges must be in bounds, on char boundaries, ordered, disjoint, separated only by blanks, blank-free at both ends (REM/DATA to their text end), and re-tokenizing each range's text must give exactly that token; for failing lines the error start must be in the line and the prefix must tokenize to the tokens reported before the error.",
    note="Trusts the 100-line predicate in c13.rs and the hook tokenize_with_ranges (iterates the real Tokenizer).",
    design="4/C13"),
  "C14": dict(
-   technique="round-trip property testing (LIST -> reload -> LIST fixed point, differential RUN and READ sequence), exhaustive over token-class pairs/triples, random over numerals / DATA / text / programs",
-   text="For stored programs built from every ordered pair (thorough: triple) of token-class representatives, numerals in many spellings and contexts, DATA statements with all item kinds and odd spacing, REM/string text with arbitrary Unicode, random atom lines, grammar-generated programs and the repo's sample programs: LIST must be a fixed point under reloading into a fresh interpreter, every listed line must be accepted, RUN of both must give identical output records and outcome, and RESTORE+READ must yield the identical DATA item sequence.",
+   technique="round-trip property testing (LIST -> reload -> LIST fixed point, differential RUN and READ sequence), exhaustive over token-class pairs/triples, random over numerals / DATA / text / programs; libFuzzer target in the thorough tier",
+   text="For stored programs built from every ordered pair (thorough: triple) of token-class representatives, numerals in many spellings and contexts, DATA statements with all item kinds and odd spacing, REM/string text with arbitrary Unicode, random atom lines, token-dense segment lines, grammar-generated programs and the repo's sample programs: LIST must be a fixed point under reloading into a fresh interpreter, every listed line must be accepted, RUN of both must give identical output records and outcome, and RESTORE+READ must yield the identical DATA item sequence.",
    note="Behavioural equality is decided under a 3000-turn budget with equal seeds and a fixed reply to INPUT.",
    design="4/C14"),
  "C03": dict(
@@ -95,13 +95,13 @@ CLAIMED = {
    note="Trusts harness/src/model.rs (reference interpreter over the AST, ~700 lines) and the renderer; generated programs stay inside the documented ELSE forms and use only identifiers made of non-keyword letters.",
    design="4/C03"),
  "C02": dict(
-   technique="exhaustive enumeration of small expression trees + random trees (proptest) vs an independent fold; metamorphic re-rendering with redundant parentheses",
+   technique="exhaustive enumeration of small expression trees + random trees (proptest) vs an independent fold; metamorphic re-rendering with redundant parentheses; libFuzzer target (prefix-notation trees decoded from bytes) in the thorough tier",
    text="All expression trees with one and two binary operators (every operator pair, both shapes), every unary/ABS/INT placement on them, and all 13^3 operator triples in all five shapes are enumerated over a leaf set of literals and assigned/unassigned variables, plus random trees up to 40 nodes; each is rendered four ways from the property's own precedence table and PRINTed by the real interpreter, and must equal an independent recursive fold (value text or error kind). Complete inside the enumerated bounds, sampled beyond.",
    note="Trusts the ~60-line fold in model.rs (apply_bin / eval) and the renderer's parenthesisation, both written from the property statement; powf and f64 Display are shared with the implementation by design.",
    design="4/C02"),
  "C18": dict(
    technique="exhaustive enumeration of generator states + property-based scripts vs independent u128 model (proptest), differential across two interpreters and the Web adapter",
-   text="Every one of the 2^33 generator states is stepped through the real Rng (hook rng_step) and compared bit-for-bit with an independent u128 model in the thorough tier (every 128th state plus all power-of-two neighbours in the quick tier); seeds beyond 2^33 and RND call scripts (positive / zero / negative arguments, inside expressions, programs and FOR loops) are generated and compared with the model on two core interpreters and the Web adapter. The state space part is complete; seeds >= 2^33 and call interleavings are sampled.",
+   text="Every one of the 2^33 generator states is stepped through the real Rng (hook rng_step) and compared bit-for-bit with an independent u128 model in the thorough tier (every 128th state plus all power-of-two neighbours in the quick tier); seeds beyond 2^33 and RND call scripts (positive / zero / negative arguments, inside expressions, nested as RND(RND(x)) and through a user function that itself calls RND, programs and FOR loops) are generated and compared with the model on two core interpreters and the Web adapter. The state space part is complete; seeds >= 2^33 and call interleavings are sampled.",
    note="Trusts the 15-line u128 model of the documented LCG and Rust's f64 Display; the hook rng_step constructs Rng::new(state) and steps it once.",
    design="4/C18"),
 }
